@@ -71,7 +71,7 @@ def withIvar (p : MeanVari α) : MeanVari α :=
   let a := absS p.vari
   ⟨p.mean, if MlpgConsts.ivarHi < a then 0 else if a < MlpgConsts.ivarLo then MlpgConsts.ivarMax else 1 / p.vari⟩
 
-def isZero (c : α) : Bool := !(decide (c < 0)) && !(decide (0 < c))
+def isZero (c : α) : Bool := !(decide (c < 0)) && !(decide (0 < c)) && decide (c ≤ c)
 
 /-- The observation sequence of one window for one vector index: per voiced frame the (mean,
     precision) of that window's dynamic feature; the precision is zeroed when the window's span leaves
